@@ -740,8 +740,13 @@ def class_forms(rep, mod, rule, rule_elide):
     probs = []
     ss = normal(summaries(f))
     for ps in ss:
-        call = [e for e in ps.events if e.kind == 'call' and
-                nt(e.r) == '_classImplements_ordered(%s, interfaces, ())' % SPEC]
+        co = find_def(mod, '_classImplements_ordered')
+        dflt_empty = len(co.args.defaults) >= 1 and isinstance(
+            co.args.defaults[-1], ast.Tuple) and not co.args.defaults[-1].elts
+        forms = ['_classImplements_ordered(%s, interfaces, ())' % SPEC]
+        if dflt_empty:          # `after` may be left to its default, ()
+            forms.append('_classImplements_ordered(%s, interfaces)' % SPEC)
+        call = [e for e in ps.events if e.kind == 'call' and nt(e.r) in forms]
         if len(call) != 1:
             probs.append('does not delegate to _classImplements_ordered(spec, '
                          'interfaces, ()) exactly once')
